@@ -2,6 +2,8 @@
 From Coq Require Import String ZArith List Bool.
 From FcpV Require Import Schema.Types Layout.Packed Layout.PackedProofs Verifier.Checks Verifier.VerifierProofs.
 From FcpV Require Import Dbc.DbcModel Dbc.DbcProofs Codegen.Pipeline Codegen.PipelineProofs.
+From FcpV Require Import Py.BufferLib Verifier.ChecksLib Verifier.ChecksProofs.
+From FcpV Require Import Layout.EncoderLib Layout.EncoderProofs Layout.EncoderFailProofs.
 Import ListNotations.
 Open Scope Z_scope.
 
@@ -66,3 +68,30 @@ Example c14_nonvacuous :
   let im := {| iname := "Foo"; iprotocol := "can"; itype := "Foo"; ifields := [("id"%string, XInt 10)]; isignals := [] |} in
   (exists ps, snd (generate true sc encoder_init im) = Some ps /\ total_bits ps = 72) /\ write_dbc sc [im] = None.
 Proof. split; [eexists; split; vm_compute; reflexivity|vm_compute; reflexivity]. Qed.
+
+(* ---- the C plug-in's size rule itself (check_impl_size, translated from plugins/fcp_can_c/fcp_can_c/generator.py on every run:
+   gen/PyChecks.v): it answers Ok / "way too big" / raises exactly as the model's chk_c_size, on which c_command_rejects_oversize
+   rests ---- *)
+Theorem source_c_size_rule_is_model :
+  forall t i,
+    match chk_c_size t i with
+    | Some b => PyChecks.CanC.py_check_impl_size t i = POk b
+    | None => exists e, PyChecks.CanC.py_check_impl_size t i = PRaise e
+    end.
+Proof. exact c_size_is_model. Qed.
+Print Assumptions source_c_size_rule_is_model.
+
+(* ---- the encoder itself (class PackedEncoder translated from encoding.py on every run: gen/PyEncoder.v): a binding whose struct
+   resolves but has no static layout - a string, dynamic array or optional anywhere, also nested or inside an array - makes the
+   translated generate() raise, which is what DBC generation (dbc_rejects_variable) relies on ---- *)
+Theorem source_no_layout_raises :
+  forall sc unroll (e : encoder) im (e0 : penc) fuel l,
+    NoDup (map sname (structs sc)) -> sig_ok im -> pe_fcp e0 = sc -> pe_unroll e0 = unroll ->
+    lresolve unroll sc (itype im) = Some l -> (ldepth l <= fuel)%nat ->
+    snd (generate unroll sc e im) = None ->
+    exists ex, PyEncoder.py_generate fuel e0 im = PRaise ex.
+Proof.
+  intros sc unroll e im e0 fuel l Hn Hs H1 H2 Hl Hf Hg.
+  pose proof (translated_generate_agrees sc unroll e im e0 fuel l Hn Hs H1 H2 Hl Hf) as H. now rewrite Hg in H.
+Qed.
+Print Assumptions source_no_layout_raises.
